@@ -71,7 +71,7 @@ def gen_enum(rng, idx, n_enabled, placement, generics, kinds, robust=False):
             pool = ["NoDefault"]  # a disabled variant may hold a type without Default
         tys = [rng.choice(pool) for _ in range(nf)]
         extra = ""
-        if not dis and not robust and kind == "tuple" and nf == 1 and tys[0] in ("u8", "String", "Seven") and rng.random() < 0.3:
+        if not dis and kind == "tuple" and nf == 1 and tys[0] in ("u8", "String", "Seven") and rng.random() < 0.3:
             # default_with belongs to EnumString: the iterator still yields Default::default() payloads
             extra = '#[strum(default_with = "dw_%s")]' % tys[0].lower()
         elif not dis and not robust and rng.random() < 0.15:
